@@ -35,6 +35,6 @@ cd "$VERIF_DIR"
 OUT=$(VERIF_REPO="$SCR" VERIF_SELFTEST=1 ./check "$ID" --tier "$TIER" 2>&1); CODE=$?
 echo "$OUT" | grep -E "violation|VIOLATION|INCONCLUSIVE" | head -3 | cut -c1-500
 echo "VET $ID m$K: check $ID ($TIER) exit=$CODE"
-D="$VERIF_DIR/seeded/$ID-m$K"; mkdir -p "$D"
+D="$VERIF_DIR/seeded/$ID-${TAG:-}m$K"; mkdir -p "$D"
 cp "$PATCH" "$D/patch.diff"; cp "$DEMO" "$D/demo_test.go"; cp "$SRC/m$K.md" "$D/notes.md" 2>/dev/null
 exit 0
